@@ -5,6 +5,9 @@
 import ALV.Lemmas.C08
 import ALV.Lemmas.C08Hist
 import ALV.Lemmas.C08Call
+import ALV.Lemmas.C08Mut
+import ALV.Lemmas.C08Table
+import ALV.Lemmas.C08NonFin
 import ALV.Common.Audit
 
 namespace ALV.Props.C08
@@ -522,6 +525,47 @@ theorem failed_op_no_trace (size : Nat) (o : DqOp α) (os : List (DqOp α)) (l :
     opsFailed size (o :: os) l = true :: opsFailed size os l := by
   simp [applyOps, opsFailed, h]
 
+/-- **C08.6d (indices of either sign on the yielded deque)**: `blk[i] = v`, `del blk[i]`, `blk.insert(i, v)` with
+any int `i`: a non-negative index is the operation of the same name; `-(k+1)` with `k < len` is position
+`len - 1 - k`; anything outside `-len ≤ i < len` raises IndexError for item assignment / deletion (and leaves no
+trace, `failed_op_no_trace`), while `insert` cuts the position to `0 .. len` and fails only on a full deque. -/
+theorem neg_index_ops (size : Nat) (l : List α) (v : α) (k : Nat) :
+    (DqOp.setI (k : Int) v).apply size l = (DqOp.keep (.set k v)).apply size l ∧
+    (DqOp.delI (k : Int) : DqOp α).apply size l = (DqOp.del k).apply size l ∧
+    (DqOp.insertI (k : Int) v).apply size l = (DqOp.insert k v).apply size l ∧
+    (k < l.length →
+      (DqOp.setI (-((k : Int) + 1)) v).apply size l = (DqOp.keep (.set (l.length - 1 - k) v)).apply size l ∧
+      (DqOp.delI (-((k : Int) + 1)) : DqOp α).apply size l = (DqOp.del (l.length - 1 - k)).apply size l ∧
+      (DqOp.insertI (-((k : Int) + 1)) v).apply size l = (DqOp.insert (l.length - 1 - k) v).apply size l) ∧
+    (l.length ≤ k →
+      (DqOp.setI (-((k : Int) + 1)) v).apply size l = none ∧
+      (DqOp.delI (-((k : Int) + 1)) : DqOp α).apply size l = none ∧
+      (DqOp.insertI (-((k : Int) + 1)) v).apply size l = (DqOp.insert 0 v).apply size l) := by
+  have hk0 : (0 : Int) ≤ (k : Int) := by omega
+  have hneg : ¬ ((0 : Int) ≤ -((k : Int) + 1)) := by omega
+  refine ⟨?_, ?_, ?_, fun hk => ⟨?_, ?_, ?_⟩, fun hk => ⟨?_, ?_, ?_⟩⟩
+  · simp only [DqOp.apply, normIdx, if_pos hk0, Int.toNat_natCast]
+    split <;> simp
+  · simp only [DqOp.apply, normIdx, if_pos hk0, Int.toNat_natCast]
+    split <;> simp
+  · simp only [DqOp.apply, insPos, if_pos hk0, Int.toNat_natCast]
+  · have h1 : -(l.length : Int) ≤ -((k : Int) + 1) := by omega
+    have h2 : (-((k : Int) + 1) + (l.length : Int)).toNat = l.length - 1 - k := by omega
+    have h3 : l.length - 1 - k < l.length := by omega
+    simp only [DqOp.apply, normIdx, if_neg hneg, if_pos h1, h2, if_pos h3, Option.map_some]
+  · have h1 : -(l.length : Int) ≤ -((k : Int) + 1) := by omega
+    have h2 : (-((k : Int) + 1) + (l.length : Int)).toNat = l.length - 1 - k := by omega
+    have h3 : l.length - 1 - k < l.length := by omega
+    simp only [DqOp.apply, normIdx, if_neg hneg, if_pos h1, h2, if_pos h3, Option.map_some]
+  · have h2 : (-((k : Int) + 1) + (l.length : Int)).toNat = l.length - 1 - k := by omega
+    simp only [DqOp.apply, insPos, if_neg hneg, h2]
+  · have h1 : ¬ (-(l.length : Int) ≤ -((k : Int) + 1)) := by omega
+    simp only [DqOp.apply, normIdx, if_neg hneg, if_neg h1, Option.map_none]
+  · have h1 : ¬ (-(l.length : Int) ≤ -((k : Int) + 1)) := by omega
+    simp only [DqOp.apply, normIdx, if_neg hneg, if_neg h1, Option.map_none]
+  · have h2 : (-((k : Int) + 1) + (l.length : Int)).toNat = 0 := by omega
+    simp only [DqOp.apply, insPos, if_neg hneg, h2]
+
 /-- one list of failed operations per block handed out by the loop -/
 theorem mut_fails_length (size hop : Nat) (ops : Nat → List (DqOp α)) (xs : List α) :
     (bloopMutFails size hop ops (⟨[], 0⟩ : BState α) 0 xs).length =
@@ -630,22 +674,235 @@ theorem zero_pad_call_eq_spec (dflt : α) (left right : Option Num) (zero : Opti
         cases hr : right.getD (.int 0) <;> simp [hA, hB, Function.comp_def]
   | _ => simp [rangeCount]
 
--- PENDING (stated, run against the code on every check through the driver's "spec", not proved):
+/-! ## The whole table of the call, and any caller of the yielded deque (closed in round 4) -/
 
-/-- the whole table of `Spec/C08Call.lean` in one equation; proved class by class above
-(`call_size_refused`, `call_hop_seq_refused`, `call_int` + `trace_fail`/`trace_stop`, `call_whole_float_hop`,
-`call_size_zero`, `call_hop_nonpos`, `call_hop_nonpos_short`) except for the float / Fraction hops that are not
-whole numbers and the whole non-positive ones on short inputs -/
-def blocksCall_eq_spec_PENDING : Prop :=
-  ∀ (α : Type) (dflt : α) (size hop : Num) (padval : Option α) (it : Bool) (xs : List α) (e : Ending),
-    blocksCall dflt size hop padval it xs e = blocksCallSpec dflt size hop padval it xs e
+/-- **C08.10 (the loop over exact rationals IS the table)**: for an accepted `size` and a hop of exact value
+`q` — an int (`rInt = true`, then `q` is whole), a float or a Fraction (`rInt = false`) — the generic-index loop
+run on `Rat` gives the rows of `hopTable`: size 0; positive whole hop = THE PROPERTY (with TypeError instead of a
+padded block that follows a complete one when the hop is not an int); hop ≤ 0 or not whole = block 0 only, then
+the last `size` items / TypeError at the end iff more than `max(size, hop)` items came. -/
+theorem hop_table (sz : Nat) (q : Rat) (rInt : Bool) (hr : rInt = true → q.den = 1) (pad : α) (xs : List α)
+    (e : Ending) :
+    grun sz ((sz : Rat) - 1) ((sz : Rat) - q) rInt (fun r : Rat => r.floor.toNat) pad xs e =
+      hopTable sz q rInt pad xs e := by
+  by_cases hsz : sz = 0
+  · exact grunQ_size_zero sz hsz q rInt pad xs e
+  · have hs0 : 0 < sz := by omega
+    by_cases hw : q.den = 1 ∧ 1 ≤ q.num
+    · -- positive whole hop
+      obtain ⟨hq, hh⟩ := whole_pos_nat q hw
+      have hrun := grunQ_whole sz q.num.toNat rInt pad xs e
+      rw [← hq] at hrun
+      rw [hrun]
+      unfold hopTable
+      rw [if_neg hsz, if_pos hw]
+      have hev : (bloopEv sz q.num.toNat (⟨[], 0⟩ : BState α) 0 xs).1 = fullEvents sz q.num.toNat xs :=
+        events_closed sz q.num.toNat hs0 hh xs
+      cases e with
+      | fail => simp only [runOfBase, hev]
+      | stop =>
+        simp only [runOfBase, hev, btail_closed sz q.num.toNat hs0 hh]
+        cases tailBlock sz q.num.toNat pad xs with
+        | nil => rfl
+        | cons b bs =>
+          simp only [finish, if_true, Bool.or_comm]
+    · -- hop ≤ 0 or not a whole number
+      have hne := not_whole_pos q hw
+      have hr' : rInt = true → q ≤ 0 := fun h => whole_nonpos q hw (hr h)
+      unfold hopTable
+      rw [if_neg hsz, if_neg hw]
+      by_cases hn : xs.length < sz
+      · rw [grunQ_short sz q rInt pad xs hn e]
+        have : ¬ sz ≤ xs.length := by omega
+        simp only [if_neg this, if_pos hn]
+        cases e <;> rfl
+      · obtain ⟨a, x, rest, hx, ha⟩ : ∃ a x rest, xs = a ++ x :: rest ∧ a.length + 1 = sz := by
+          have hlt : sz - 1 < xs.length := by omega
+          refine ⟨xs.take (sz - 1), xs[sz - 1], xs.drop sz, ?_, ?_⟩
+          · have h := (List.take_append_drop (sz - 1) xs).symm
+            rw [List.drop_eq_getElem_cons hlt] at h
+            have e : sz - 1 + 1 = sz := by omega
+            rw [e] at h
+            exact h
+          · simp only [List.length_take]; omega
+        subst ha
+        subst hx
+        rw [grunQ_else_long a x rest q rInt hne hr' pad e]
+        have hle : a.length + 1 ≤ (a ++ x :: rest).length := by
+          simp only [List.length_append, List.length_cons]; omega
+        have htake : (a ++ x :: rest).take (a.length + 1) = a ++ [x] := by
+          rw [List.take_append, List.take_of_length_le (by omega)]; simp
+        simp only [if_pos hle, if_neg hn, htake]
+        cases e <;> rfl
 
-/-- `hop ≤ size`, a caller that changes the yielded deque in any way: every block is the last `size` of what
-the caller left followed by the next `hop` items (`mutSpecG`) -/
-def blocks_mut_any_eq_spec_PENDING : Prop :=
-  ∀ (α : Type) (size hop : Nat), 0 < size → 0 < hop → hop ≤ size →
-    ∀ (pad : α) (edit : Nat → List α → List α) (xs : List α),
-      blocksMut size hop pad edit xs = mutSpecG size hop pad edit xs
+/-- **C08.10b (THE WHOLE TABLE)**: the call of `blocks`, for EVERY spelling of `size` and `hop` (int / bool, float,
+Fraction — whole or not, of any sign —, None, other objects), given or defaulted `padval`, iterable or not, a source
+that ends or fails after any input: what comes out, when, and how it ends is `blocksCallSpec`. -/
+theorem blocksCall_eq_spec (dflt : α) (size hop : Num) (padval : Option α) (it : Bool) (xs : List α) (e : Ending) :
+    blocksCall dflt size hop padval it xs e = blocksCallSpec dflt size hop padval it xs e := by
+  cases size with
+  | int s =>
+    unfold blocksCall blocksCallSpec initSize
+    by_cases h1 : s < 0
+    · simp only [if_pos h1]
+    · by_cases h2 : maxSsize < s
+      · simp only [if_neg h1, if_pos h2]
+      · simp only [if_neg h1, if_neg h2]
+        obtain ⟨sz, rfl⟩ : ∃ sz : Nat, s = (sz : Int) := ⟨s.toNat, by omega⟩
+        simp only [Int.toNat_natCast]
+        -- an int hop: the `Int` loop is the `Rat` loop at whole numbers
+        have hint : ∀ h : Int, grun sz ((sz : Int) - 1) ((sz : Int) - h) true Int.toNat
+            (padval.getD dflt) xs e = hopTable sz (h : Rat) true (padval.getD dflt) xs e := by
+          intro h
+          have c1 : ((sz : Nat) : Rat) - 1 = ((((sz : Nat) : Int) - 1 : Int) : Rat) := by
+            simp [Rat.intCast_sub, Rat.intCast_natCast]
+          have c2 : ((sz : Nat) : Rat) - ((h : Int) : Rat) = ((((sz : Nat) : Int) - h : Int) : Rat) := by
+            simp [Rat.intCast_sub, Rat.intCast_natCast]
+          rw [← grun_rat, ← c1, ← c2]
+          exact hop_table sz (h : Rat) true (fun _ => Rat.den_intCast h) _ xs e
+        cases hop with
+        | none =>
+          simp only [initHop]
+          cases it with
+          | false => rfl
+          | true =>
+            simp only [Bool.not_true, Bool.false_eq_true, if_false]
+            rw [hint, Rat.intCast_natCast]
+        | int h =>
+          simp only [initHop, Num.val?]
+          cases it with
+          | false => rfl
+          | true =>
+            simp only [Bool.not_true, Bool.false_eq_true, if_false]
+            exact hint h
+        | flt q =>
+          simp only [initHop, Num.val?]
+          cases it with
+          | false => rfl
+          | true =>
+            simp only [Bool.not_true, Bool.false_eq_true, if_false]
+            exact hop_table sz q false (fun h => absurd h (by decide)) _ xs e
+        | frac q =>
+          simp only [initHop, Num.val?]
+          cases it with
+          | false => rfl
+          | true =>
+            simp only [Bool.not_true, Bool.false_eq_true, if_false]
+            exact hop_table sz q false (fun h => absurd h (by decide)) _ xs e
+        | fnf k =>
+          simp only [initHop]
+          cases it with
+          | false => rfl
+          | true =>
+            simp only [Bool.not_true, Bool.false_eq_true, if_false]
+            exact grunX_table sz k _ xs e
+        | other => rfl
+  | _ => rfl
+
+/-- **C08.10c (`hop` = `float('inf')`, `float('-inf')`, `float('nan')`)**: never an error and never a second
+block: block 0 when `size ≥ 1` items were pulled, then the source is read to its end (an endless one for ever)
+and the run ends cleanly; when fewer than `size` items came (or `size = 0`) the padded (empty) block comes out
+iff `hop = +inf` and at least one item came — `max(size - hop, 0)` is `0` for `+inf`, `+inf` for `-inf`, and
+`nan` for `nan`, against which every comparison fails.  Unlike a finite non-whole float hop (`call_nonwhole_hop`)
+there is no TypeError at the end: the index `±inf` / `nan` is never greater than itself. -/
+theorem call_nonfinite_hop (dflt : α) (s : Nat) (hs : (s : Int) ≤ maxSsize) (k : NonFin) (padval : Option α)
+    (xs : List α) (e : Ending) :
+    blocksCall dflt (.int s) (.fnf k) padval true xs e = nonFinTable s k (padval.getD dflt) xs e ∧
+    ((nonFinTable s k (padval.getD dflt) xs e).ending = .stop ↔ e = .stop) ∧
+    (nonFinTable s k (padval.getD dflt) xs e).pulled = xs.length ∧
+    (0 < s → s ≤ xs.length → (nonFinTable s k (padval.getD dflt) xs e).events = [(s, xs.take s)]) := by
+  have h1 : ¬ ((s : Int) < 0) := by omega
+  have h2 : ¬ (maxSsize < (s : Int)) := by omega
+  refine ⟨?_, ?_, ?_, ?_⟩
+  · rw [blocksCall_eq_spec]
+    simp only [blocksCallSpec, if_neg h1, if_neg h2, Int.toNat_natCast, Bool.not_true, Bool.false_eq_true, if_false]
+  · unfold nonFinTable finish
+    cases e <;> (split <;> simp <;> split <;> simp)
+  · unfold nonFinTable finish
+    cases e <;> (split <;> simp <;> split <;> simp)
+  · intro h0 hle
+    have hz : ¬ s = 0 := by omega
+    have hn : ¬ (k = .pinf ∧ 0 < xs.length ∧ xs.length < s) := by omega
+    unfold nonFinTable finish
+    cases e <;> simp [hz, hle, hn]
+
+/-- the rows of the table that were open after round 3, read off `blocksCall_eq_spec`: a float / Fraction hop
+that is NOT a whole number, at least `size ≥ 1` items: block 0 when `size` items were pulled, nothing more in
+the loop (an endless source is read for ever), and when the source ends TypeError iff more than `max(size, hop)`
+items came — otherwise a clean end.  Fewer than `size` items: the padded block iff more than `max(size - hop, 0)`
+items came, as for an int hop. -/
+theorem call_nonwhole_hop (dflt : α) (s : Nat) (hs0 : 0 < s) (hs : (s : Int) ≤ maxSsize) (q : Rat) (hq : q.den ≠ 1)
+    (padval : Option α) (xs : List α) :
+    (∀ e, blocksCall dflt (.int s) (.flt q) padval true xs e = blocksCall dflt (.int s) (.frac q) padval true xs e) ∧
+    (s ≤ xs.length →
+      blocksCall dflt (.int s) (.flt q) padval true xs .fail = ⟨[(s, xs.take s)], .srcFail, xs.length⟩ ∧
+      blocksCall dflt (.int s) (.flt q) padval true xs .stop =
+        ⟨[(s, xs.take s)], (if s < xs.length ∧ q < (xs.length : Rat) then .err .typeError else .stop), xs.length⟩) ∧
+    (xs.length < s →
+      blocksCall dflt (.int s) (.flt q) padval true xs .stop =
+        (if max ((s : Rat) - q) 0 < (xs.length : Rat)
+          then ⟨[(xs.length, xs ++ List.replicate (s - xs.length) (padval.getD dflt))], .stop, xs.length⟩
+          else ⟨[], .stop, xs.length⟩)) := by
+  have h1 : ¬ ((s : Int) < 0) := by omega
+  have h2 : ¬ (maxSsize < (s : Int)) := by omega
+  have hz : ¬ s = 0 := by omega
+  have hw : ¬ (q.den = 1 ∧ 1 ≤ q.num) := fun h => hq h.1
+  have hsp : ∀ e, blocksCall dflt (.int s) (.flt q) padval true xs e = hopTable s q false (padval.getD dflt) xs e := by
+    intro e
+    rw [blocksCall_eq_spec]
+    simp only [blocksCallSpec, if_neg h1, if_neg h2, Num.val?, Int.toNat_natCast, Bool.not_true,
+      Bool.false_eq_true, if_false]
+  refine ⟨fun e => rfl, fun hle => ⟨?_, ?_⟩, fun hlt => ?_⟩
+  · rw [hsp]; simp only [hopTable, if_neg hz, if_neg hw, if_pos hle]
+  · have hn : ¬ xs.length < s := by omega
+    rw [hsp]; simp only [hopTable, if_neg hz, if_neg hw, if_pos hle, if_neg hn, finish]
+    by_cases hc : s < xs.length ∧ q < (xs.length : Rat)
+    · rw [decide_eq_true hc, if_pos hc]; simp only [if_true, Bool.false_eq_true, if_false]
+    · rw [decide_eq_false hc, if_neg hc]; simp only [Bool.false_eq_true, if_false]
+  · have hn : ¬ s ≤ xs.length := by omega
+    rw [hsp]; simp only [hopTable, if_neg hz, if_neg hw, if_neg hn, if_pos hlt, finish]
+    by_cases hc : max ((s : Rat) - q) 0 < (xs.length : Rat)
+    · rw [decide_eq_true hc, if_pos hc]; simp only [if_true, List.nil_append]
+    · rw [decide_eq_false hc, if_neg hc]; simp only [Bool.false_eq_true, if_false]
+
+/-- **C08.6c (ANY caller, `hop ≤ size`)**: whatever the caller does to the yielded deque between two blocks
+(no hypothesis on `edit`: contents, length, even emptied), every block after the first is the last `size` of
+what the caller left followed by the next `hop` items; a final block (what was left, the remaining `0 < r < hop`
+items, `hop - r` pads, cut to `size`) iff items remain. -/
+theorem blocks_mut_any_eq_spec (size hop : Nat) (hs : 0 < size) (hh : 0 < hop) (hle : hop ≤ size) (pad : α)
+    (edit : Nat → List α → List α) (xs : List α) :
+    blocksMut size hop pad edit xs = mutSpecG size hop pad edit xs :=
+  blocksMut_eq_mutSpecG size hop hs hh hle pad edit xs
+
+/-- the deque operations of the tie (length-changing and failing ones included), `hop ≤ size` -/
+theorem blocks_mut_ops_eq_spec (size hop : Nat) (hs : 0 < size) (hh : 0 < hop) (hle : hop ≤ size) (pad : α)
+    (ops : Nat → List (DqOp α)) (xs : List α) :
+    blocksMut size hop pad (fun k => applyOps size (ops k)) xs =
+      mutSpecG size hop pad (fun k => applyOps size (ops k)) xs :=
+  blocks_mut_any_eq_spec size hop hs hh hle pad _ xs
+
+/-- the two specifications of an editing caller agree where both apply (length-preserving edits, `hop ≤ size`):
+`mutSpec` (virtual input, C08.6) and `mutSpecG` (last `size` of what was left) are the same blocks -/
+theorem mutSpec_eq_mutSpecG (size hop : Nat) (hs : 0 < size) (hh : 0 < hop) (hle : hop ≤ size) (pad : α)
+    (edit : Nat → LenPres α) (xs : List α) :
+    mutSpec size hop pad edit 0 xs = mutSpecG size hop pad (fun k => (edit k).1) xs := by
+  rw [← blocks_mut_eq_spec size hop hs hh, blocks_mut_any_eq_spec size hop hs hh hle]
+
+/-- what a shortened deque does to the NEXT block (`hop ≤ size`, a further complete window follows): the block
+holds what the caller left (at most `size` items) followed by the next `hop` items, cut to the last `size` —
+after `clear()` it has only `hop` items -/
+theorem mut_any_next_block (size hop : Nat) (hs : 0 < size) (hh : 0 < hop) (hle : hop ≤ size) (pad : α)
+    (edit : Nat → List α → List α) (xs : List α) (hx : size + hop ≤ xs.length) :
+    (blocksMut size hop pad edit xs)[1]? =
+      some (lastSz size (edit 0 (xs.take size) ++ (xs.drop size).take hop)) := by
+  rw [blocks_mut_any_eq_spec size hop hs hh hle]
+  unfold mutSpecG
+  have hn : ¬ xs.length < size := by omega
+  rw [if_neg hn, mutSpecGo]
+  have hc : ¬ ((xs.drop size).length < hop ∨ hop = 0) := by
+    simp only [List.length_drop]; omega
+  rw [dif_neg hc]
+  simp
 
 /-- non-vacuity: hypotheses satisfiable, statement about a non-trivial input -/
 example : blocks 4 2 (0:Nat) [100,101,102,103,104] = [[100,101,102,103],[102,103,104,0]] := by decide
@@ -684,6 +941,29 @@ example : blocksMut 2 4 (0:Nat) (fun k => applyOps 2 (if k = 0 then [DqOp.clear,
 example : (zeroPadCall (0:Nat) (some (.int 1)) (some (.flt 1)) none true [7,8] .stop).out = [(0,0),(1,7),(2,8)] ∧
     (zeroPadCall (0:Nat) (some (.int 1)) (some (.flt 1)) none true [7,8] .stop).ending = .err .typeError := ⟨rfl, rfl⟩
 example : ∀ i : Int, Num.flt 1 ≠ Num.int i := by intro i h; cases h
+
+
+-- round 4: the whole table.  hop = 0.5 (not whole), size 2, five items: block 0, then TypeError at the end;
+-- three items and hop 3.5: a clean end (not more than max(size, hop) items); two items, size 4, hop 2.5: padded block
+example : (blocksCall (99:Nat) (.int 2) (.flt (1/2)) none true [0,1,2,3,4] .stop).events = [(2, [0,1])] ∧
+    (blocksCall (99:Nat) (.int 2) (.flt (1/2)) none true [0,1,2,3,4] .stop).ending = .err .typeError := by decide +kernel
+example : (blocksCall (99:Nat) (.int 2) (.frac (7/2)) none true [0,1,2] .stop).ending = .stop := by decide +kernel
+example : (blocksCall (99:Nat) (.int 4) (.flt (5/2)) none true [0,1] .stop).events = [(2, [0,1,99,99])] := by decide +kernel
+example : (1/2 : Rat).den ≠ 1 ∧ (0:Nat) < 2 ∧ ((2:Nat):Int) ≤ maxSsize ∧ 2 ≤ [0,1,2,3,4].length := by decide +kernel
+-- indices from the end: blk[-1] = 7 on block 0 (size 4, hop 2) shows as item 1 of block 1; del blk[-5] fails
+example : blocksMut 4 2 (0:Nat) (fun k => applyOps 4 (if k = 0 then [DqOp.setI (-1) 7, .delI (-5)] else [])) [0,1,2,3,4,5] =
+    [[0,1,2,3],[2,7,4,5]] ∧ opsFailed 4 [DqOp.setI (-1) 7, .delI (-5)] [0,1,2,(3:Nat)] = [false, true] := by decide
+-- non-finite hops: size 3, hop = +inf, two items: the padded block; hop = nan: nothing; five items: block 0 only
+example : (blocksCall (99:Nat) (.int 3) (.fnf .pinf) none true [0,1] .stop).events = [(2, [0,1,99])] ∧
+    (blocksCall (99:Nat) (.int 3) (.fnf .nan) none true [0,1] .stop).events = [] ∧
+    (blocksCall (99:Nat) (.int 3) (.fnf .ninf) none true [0,1,2,3,4] .stop).events = [(3, [0,1,2])] ∧
+    (blocksCall (99:Nat) (.int 3) (.fnf .ninf) none true [0,1,2,3,4] .stop).ending = .stop := by decide +kernel
+-- hypotheses of `hop_table`: an int index needs a whole hop, a float one nothing
+example : (true = true → ((-3 : Int) : Rat).den = 1) ∧ (false = true → (1/2 : Rat).den = 1) := by decide +kernel
+-- any caller, hop < size: three pops and an appendleft on block 0 (size 4, hop 2)
+example : blocksMut 4 2 (0:Nat) (fun k => applyOps 4 (if k = 0 then [DqOp.pop, .pop, .pop, .appendleft 7] else []))
+    [0,1,2,3,4,5,6] = [[0,1,2,3],[7,0,4,5],[4,5,6,0]] := by decide
+example : (0:Nat) < 4 ∧ (0:Nat) < 2 ∧ 2 ≤ 4 ∧ 4 + 2 ≤ [0,1,2,3,4,5,6].length := by decide
 
 end ALV.Props.C08
 
